@@ -290,6 +290,20 @@ def render_case(case):
     nm = Namer()
     home = case.get("home")
     binder = case.get("binder")
+    if case.get("tuple_of"):
+        # scrutinee = a tuple EXPRESSION (x0, .., xN-1); its pattern is resolved against std.tuples
+        comps = case["tuple_of"]
+        tup = "(" + ", ".join(f"x{i}" for i in range(len(comps))) + ")"
+        pats = case["pats"]
+        if case["kind"] == "match":
+            body = f"match {tup} {{ " + ", ".join(f"{pat_src(p, nm)} -> {i}" for i, p in enumerate(pats)) + " }"
+        elif case["kind"] == "let":
+            body = f"{{ let {pat_src(pats[0], nm)} = {tup}; 1 }}"
+        else:
+            body = f"if let {pat_src(pats[0], nm)} = {tup} {{ 1 }} else {{ 2 }}"
+        params = ", ".join(f"x{i}: {ty_src(t)}" for i, t in enumerate(comps))
+        lines = [class_src(c) for c in case["classes"] if c["name"] != "Tup"]
+        return "\n".join(lines + ["class Main {", f"  function f({params}): int = {body}", "}"]) + "\n"
     ty = TPNAMES[binder["scrut"]] if binder else ty_src(case["ty"])
     pats = case["pats"]
     if case["kind"] == "match":
@@ -318,7 +332,7 @@ def case_line(case, source=None):
     bounds = [b for _, b in (binder["cls"] + binder["fn"]) if b is not None] if binder else []
     order, ids = closure(classes, case["ty"] if case["ty"] is not None else ("int",), bounds)
     cls_ids = {c["name"]: i for i, c in enumerate(classes)}
-    toks = ["chk", common.hexs(source if source is not None else render_case(case)), case["kind"], "0", "T", str(len(order))]
+    toks = [case.get("op", "chk"), common.hexs(source if source is not None else render_case(case)), case["kind"], "0", "T", str(len(order))]
     for t in order:
         d = ty_def(classes, t)
         if d[0] == "prim":
@@ -645,7 +659,21 @@ def oracle(case, verdict, cap=4000):
             return "checked", [f"counterexample `{verdict['nonexh']}` is not a well-formed pattern of type {ty_src(t)}"]
         depth = max(depth, pat_depth(cexp) + 1)
     try:
-        vals = enum_values(classes, t, depth, inh, cap)
+        vals = None
+        d0 = ty_def(classes, t)
+        allp = pats + ([cexp] if cexp is not None else [])
+        if d0[0] == "struct" and all(p[0] in ("W", "I") or (p[0] == "T" and len(p[1]) == len(d0[1])) for p in allp):
+            # wide structs / tuples: a field at which every pattern (and the counterexample) has `_` or an
+            # identifier cannot influence any verdict - it is fixed to its least inhabitant
+            free = [all(p[0] != "T" or p[1][k][0] in ("W", "I") for p in allp) for k in range(len(d0[1]))]
+            subs = [[inh[ft]] if free[k] else enum_values(classes, ft, depth - 1, inh, cap) for k, (_, ft) in enumerate(d0[1])]
+            n = 1
+            for sub in subs:
+                n *= len(sub)
+            if n <= cap:
+                vals = [("s", None, tuple(c)) for c in itertools.product(*subs)]
+        if vals is None:
+            vals = enum_values(classes, t, depth, inh, cap)
     except OverflowError:
         return "skipped-size", []
     fails = []
@@ -1292,6 +1320,35 @@ def binder_family():
     return out
 
 
+def tuple_family():
+    """Seed-independent family over the standard library's tuple classes (std/tuples.sam, data the
+    checker reads): for every size N = 2..16 and every position i, an N-tuple expression whose components
+    are pairwise different enums with overlapping variant names ({A, B} + a different subset of
+    {C, D, E, F} each), a refutable pattern at position i only - as match exhaustive / missing one, let,
+    if-let irrefutable / refutable.  Model: an N-tuple is a struct of N fields."""
+    W = ("W",)
+    enums = []
+    for j in range(16):
+        extra = [2 + b for b in range(4) if (j >> b) & 1]
+        enums.append({"name": f"K{j}", "generic": 0, "kind": "enum", "variants": [(v, []) for v in [0, 1] + extra]})
+    out = []
+    for n in range(2, 17):
+        comps = [("cls", f"K{j}", None) for j in range(n)]
+        tup = {"name": "Tup", "generic": 0, "kind": "struct", "fields": [(k, comps[k]) for k in range(n)]}
+        classes = enums[:n] + [tup]
+        ty = ("cls", "Tup", None)
+        for i in range(n):
+            vs = [v for v, _ in enums[i]["variants"]]
+            at = lambda q: ("T", [q if k == i else W for k in range(n)])
+            var = lambda v: ("V", v, [], False)
+            for kind, pats in (("match", [at(var(v)) for v in vs]), ("match", [at(var(v)) for v in vs[:-1]]),
+                               ("let", [at(var(vs[0]))]), ("iflet", [at(("R", [var(v) for v in vs]))]),
+                               ("iflet", [at(("R", [var(v) for v in vs[:-1]]))] if len(vs) > 2 else [at(var(vs[0]))])):
+                out.append({"classes": classes, "ty": ty, "kind": kind, "pats": pats, "home": None,
+                            "op": "chkstd", "tuple_of": comps})
+    return out
+
+
 def gen_object_case(rng):
     """Stream `object-reorder`: a struct of 2-3 enum-typed fields matched by object patterns whose
     fields are written in a random order, each with a refutable sub-pattern (or `_`), in several arms -
@@ -1365,6 +1422,20 @@ def run(ctx):
         cases = exhaustive_small(ctx, stats, 1500)
         return run_cases(ctx, cases, "search after broken proof", stats) > 0
 
+    rc_x, out_x = common.sh(["python3", os.path.join(common.VERIF, "extract", "c07_tuples.py")])
+    if rc_x != 0:
+        ctx.violation("translator extract/c07_tuples.py can no longer read std/tuples.sam: " + out_x.strip()[-300:],
+                      {"broken": "extract/c07_tuples.py", "log": out_x[-3000:]}, no_input=True)
+    else:
+        # name the entry that falsifies `std_tuples_fields` (the theorem itself is checked by `decide`)
+        gen = open(os.path.join(common.LEAN, "SamVerif", "Generated", "C07Tuples.lean"), encoding="utf-8").read()
+        for m in re.finditer(r"\((\d+), (\d+), \[([^\]]*)\]\)", gen):
+            n, k, fl = int(m.group(1)), int(m.group(2)), re.findall(r"\((\d+), (\d+)\)", m.group(3))
+            offs = [(pos, int(a), int(b)) for pos, (a, b) in enumerate(fl) if int(a) != pos or int(b) != pos]
+            if k != n or len(fl) != n or offs:
+                ctx.violation(f"std/tuples.sam: the tuple class of size {n} does not declare field k as `e<k>: E<k>` "
+                              f"(type parameters {k}, fields {len(fl)}, off entries (position, e, E): {offs[:4]}); theorem std_tuples_fields is false for it",
+                              {"broken": "std_tuples_fields", "size": n, "entries": offs}, no_input=True)
     res = common.proof_gate(ctx, search)
     rng = ctx.rng
     total = 0
@@ -1383,6 +1454,9 @@ def run(ctx):
     bfam = binder_family()
     run_cases(ctx, bfam, "deterministic family (type-parameter scrutinees: which declaration is in scope)", stats); total += len(bfam)
     stats["binder_family"] = len(bfam)
+    tfam = tuple_family()
+    run_cases(ctx, tfam, "deterministic family (std tuples of every size 2..16, refutable pattern at every position)", stats); total += len(tfam)
+    stats["tuple_family"] = len(tfam)
     corpus.append(F1_CASE)   # regression input of the fixed finding C07-F1 (must not panic any more)
     run_cases(ctx, corpus, "corpus", stats); total += len(corpus)
     n_valid = ctx.scale(1400, 40000)
@@ -1429,7 +1503,7 @@ def run(ctx):
         "rule": "one evaluation = one generated module (1-4 enum/struct/generic classes, recursive and nested) with one match (1-6 arms) / destructuring let / if-let over variant, tuple, object, wildcard, id, or-patterns of depth <= 4, type-checked by the real checker and by the model; non-trivial = distinct implementation answer carrying a NonExhaustiveMatch counterexample or an irrefutable-if-let diagnostic",
         "samples": samples, "traces_validated_against_impl": total,
         "case_kinds": stats["kinds"], "expression_contexts": stats["contexts"], "impl_outcomes": stats["outcomes"],
-        "oracle": {k: v for k, v in stats.items() if k in ("checked", "skipped-size", "skipped-malformed", "skipped-uninhabited", "illtyped", "uninhabited", "certified", "deterministic_family", "wrapper_family", "binder_family")},
+        "oracle": {k: v for k, v in stats.items() if k in ("checked", "skipped-size", "skipped-malformed", "skipped-uninhabited", "illtyped", "uninhabited", "certified", "deterministic_family", "wrapper_family", "binder_family", "tuple_family")},
         "pending": PENDING})
     ctx.assumptions += [
         "every type reachable from the scrutinee type has a value (Inhabited'); for uninhabited recursive enums the algorithm still asks for all variants (stated in DESIGN section 8 C07)",
